@@ -275,6 +275,53 @@ func pfPrelude() []pfCase {
 		st("app.x.io", "/", S("app.x.io", nil), nil),
 		st("admin--db.apps.x.io", "/", root("admin--db.apps.x.io"), nil),
 	}})
+	// the same host name on two ports is two upstreams: a session is bound to the Host it was issued for, port included
+	prt := pfBaseCfg()
+	prt.Upstreams = []pfUpstream{
+		{Service: "plain", From: "port.x.io", Domains: []string{"x.io"}},
+		{Service: "port", From: "port.x.io:8443", Groups: []string{"admins"}},
+	}
+	cases = append(cases, pfCase{Cfg: prt, Steps: []pfStep{
+		st("port.x.io", "/", S("port.x.io", nil), nil),
+		st("port.x.io:8443", "/", S("port.x.io", nil), nil),            // ann's session for the open upstream, replayed on the restricted port
+		st("port.x.io:8443", "/oauth2/auth", S("port.x.io", nil), nil), // 401, not 202
+		st("port.x.io:8443", "/", S("port.x.io:8443", func(s *pfSess) { s.Email = "root@x.io"; s.Groups = []string{"admins"} }), nil),
+		st("port.x.io", "/", S("port.x.io:8443", func(s *pfSess) { s.Email = "root@x.io"; s.Groups = []string{"admins"} }), nil),
+		st("port.x.io:8443", "/", S("port.x.io", func(s *pfSess) { s.Valid = -10 }), nil),
+		st("port.x.io:8443", "/", S("port.x.io", func(s *pfSess) { s.Refresh = -10 }), nil),
+		st("port.x.io:8443", "/", none, nil),
+		func() pfStep {
+			s := pfStep{Host: "port.x.io", StateKind: "own", CsrfKind: "own", Code: "c1"}
+			pfDefaultAns(&s)
+			return s
+		}(),
+		st("port.x.io", "/", pfCookie{Kind: "jar"}, nil),
+		st("port.x.io:8443", "/", pfCookie{Kind: "jar"}, nil), // what a browser does on its own: cookies ignore ports
+	}})
+	// two outages with a successful check in between, on an upstream restricted by e-mail only and on one restricted by
+	// group: the second outage starts a fresh grace period
+	for _, host := range []string{"app.x.io", "api.x.io"} {
+		oc := pfBaseCfg()
+		oc.Upstreams[1].Slug = ""
+		un := func(s *pfStep) { s.Validate = pfReply{Kind: "status", Status: 503} }
+		unR := func(s *pfStep) { s.Refresh = pfReply{Kind: "status", Status: 429} }
+		jar := func(gap int64, mut func(*pfStep)) pfStep {
+			s := pfStep{Host: host, Target: "/", Cookie: pfCookie{Kind: "jar"}, Gap: gap}
+			if mut != nil {
+				mut(&s)
+			}
+			pfDefaultAns(&s)
+			return s
+		}
+		login := pfStep{Host: host, StateKind: "own", CsrfKind: "own", Code: "c1", Redeem: pfReply{Kind: "ok", Token: "at-1", RTok: "rt-1", TTL: 3000, Email: "ann@x.io"}}
+		pfDefaultAns(&login)
+		cases = append(cases, pfCase{Cfg: oc, Steps: []pfStep{st(host, "/", none, nil), login,
+			jar(73, un), jar(73, nil), jar(313, un), jar(73, un), jar(200, un), jar(73, nil), jar(73, un)}})
+		login2 := login
+		login2.Redeem.TTL = 60
+		cases = append(cases, pfCase{Cfg: oc, Steps: []pfStep{st(host, "/", none, nil), login2,
+			jar(73, unR), jar(73, nil), jar(613, unR), jar(73, unR), jar(73, nil)}})
+	}
 	// a group rule whose only name is blank (e.g. an empty template variable) is still a rule: it admits nobody
 	for _, gs := range [][]string{{""}, {" ", "\t"}, {"*", ""}, {"eng", ""}} {
 		bl := pfBaseCfg()
